@@ -9,62 +9,75 @@
   the source has, so that threads can interleave between the test, the raw call, the second test
   and the flag store — the interleavings in which defects D15 and D15b lived.
 
-  One exclusive lock, any number of threads. `retest = false` is the protocol before the repairs.
+  One lock (exclusive and shared holds: an `RwLock`; a `Mutex` uses the exclusive mode only), any
+  number of threads. `retest = false` is the protocol before the repairs.
 -/
 namespace HLV.Kill
 
+inductive Md | x | s      -- exclusive / shared
+  deriving DecidableEq, Repr
+
 inductive Pc
   | idle
-  | tested (try_ : Bool)     -- passed the first flag test, about to call the raw operation
-  | locked (try_ : Bool)     -- the raw operation returned "acquired", about to test the flag again
-  | holding                  -- a guard has been handed out
-  | recover                  -- a raw operation panicked; the recovery closure is about to store the flag
-  | refused                  -- the acquisition was refused (panic "killed" / `false` for a killed lock)
-  | busy                     -- a try found the raw lock taken (`false`)
-  | unwound                  -- the thread's panic has left happylock
+  | tested (try_ : Bool) (m : Md)   -- passed the first flag test, about to call the raw operation
+  | locked (try_ : Bool) (m : Md)   -- the raw operation returned "acquired", about to test the flag again
+  | holding (m : Md)                -- a guard has been handed out
+  | recover                         -- a raw operation panicked; the recovery closure is about to store the flag
+  | refused                         -- the acquisition was refused (panic "killed" / `false` for a killed lock)
+  | busy                            -- a try found the raw lock taken (`false`)
+  | unwound                         -- the thread's panic has left happylock
   deriving DecidableEq, Repr
 
 structure St where
-  holder : Option Nat := none      -- who has the raw lock
+  writer : Option Nat := none      -- who has the raw lock exclusively
+  readers : List Nat := []         -- who has it shared
   killed : Bool := false
   pcs : List Pc
   deriving DecidableEq, Repr
 
 /-- what the scheduler asks thread `t` to do next -/
 inductive Act
-  | start (try_ : Bool)      -- begin `lock()` / `try_lock()`: the first flag test
-  | raw (fault : Bool)       -- the raw acquire (a fault = the raw operation panics instead)
-  | retest                   -- the second flag test
-  | release (fault : Bool)   -- `drop(guard)`: the raw unlock (fault = it panics after releasing)
-  | store                    -- the recovery closure stores the kill flag
-  | again                    -- a refused / busy thread goes back to idle (to try once more)
+  | start (try_ : Bool) (m : Md)   -- begin `lock()` / `try_lock()` / `read()` / `try_read()`: the first flag test
+  | raw (fault : Bool)             -- the raw acquire (a fault = the raw operation panics instead)
+  | retest                         -- the second flag test
+  | release (fault : Bool)         -- `drop(guard)`: the raw unlock (fault = it panics after releasing)
+  | store                          -- the recovery closure stores the kill flag
+  | again                          -- a refused / busy thread goes back to idle (to try once more)
   deriving DecidableEq, Repr
 
 def St.pc (s : St) (t : Nat) : Pc := s.pcs.getD t .unwound
 def St.setPc (s : St) (t : Nat) (p : Pc) : St := { s with pcs := s.pcs.set t p }
 
+/-- the raw lock can be taken in mode `m` -/
+def St.free (s : St) : Md → Bool
+  | .x => s.writer.isNone && s.readers.isEmpty
+  | .s => s.writer.isNone
+def St.take (s : St) (t : Nat) : Md → St
+  | .x => { s with writer := some t }
+  | .s => { s with readers := t :: s.readers }
+def St.give (s : St) (t : Nat) : Md → St
+  | .x => { s with writer := none }
+  | .s => { s with readers := s.readers.erase t }
+
 /-- one step of thread `t`; `none` = not enabled (a blocking acquire of a taken lock waits) -/
 def step (retest : Bool) (s : St) (t : Nat) : Act → Option St
-  | .start tr => match s.pc t with
-    | .idle => some (if s.killed then s.setPc t .refused else s.setPc t (.tested tr))
+  | .start tr m => match s.pc t with
+    | .idle => some (if s.killed then s.setPc t .refused else s.setPc t (.tested tr m))
     | _ => none
   | .raw fault => match s.pc t with
-    | .tested tr =>
+    | .tested tr m =>
       if fault then some (s.setPc t .recover)
-      else match s.holder with
-        | none =>
-          let s' := { s with holder := some t }
-          some (if retest then s'.setPc t (.locked tr) else s'.setPc t .holding)
-        | some _ => if tr then some (s.setPc t .busy) else none
+      else if s.free m then
+        some (if retest then (s.take t m).setPc t (.locked tr m) else (s.take t m).setPc t (.holding m))
+      else if tr then some (s.setPc t .busy) else none
     | _ => none
   | .retest => match s.pc t with
-    | .locked _ =>
-      some (if s.killed then ({ s with holder := none } : St).setPc t .refused else s.setPc t .holding)
+    | .locked _ m =>
+      some (if s.killed then (s.give t m).setPc t .refused else s.setPc t (.holding m))
     | _ => none
   | .release fault => match s.pc t with
-    | .holding =>
-      let s' : St := { s with holder := none }
-      some (if fault then s'.setPc t .recover else s'.setPc t .idle)
+    | .holding m =>
+      some (if fault then (s.give t m).setPc t .recover else (s.give t m).setPc t .idle)
     | _ => none
   | .store => match s.pc t with
     | .recover => some (({ s with killed := true } : St).setPc t .unwound)
@@ -83,52 +96,65 @@ def run (retest : Bool) : St → List (Nat × Act) → St
 
 def init (n : Nat) : St := { pcs := List.replicate n .idle }
 
-/-- thread `t` receives a guard in this step -/
-def grants (s s' : St) (t : Nat) : Bool := s.pc t != .holding && s'.pc t == .holding
+def Pc.isHolding : Pc → Bool
+  | .holding _ => true
+  | _ => false
 
-/-! ### the three scenarios of `harness/src/bin/extras.rs` as schedules (thread 0 = A, 1 = B, 2 = C) -/
+/-- thread `t` receives a guard in this step -/
+def grants (s s' : St) (t : Nat) : Bool := !(s.pc t).isHolding && (s'.pc t).isHolding
+
+/-! ### the scenarios of `harness/src/bin/extras.rs` as schedules (thread 0 = A, 1 = B, 2 = C) -/
 
 /-- A holds; B starts `lock()` and waits in the raw lock; C's raw `try_lock` panics and kills the
 lock; A releases; B's raw lock returns -/
 def schedKillWhileWaiting : List (Nat × Act) :=
-  [(0, .start false), (0, .raw false), (0, .retest),
-   (1, .start false),
-   (2, .start true), (2, .raw true), (2, .store),
+  [(0, .start false .x), (0, .raw false), (0, .retest),
+   (1, .start false .x),
+   (2, .start true .x), (2, .raw true), (2, .store),
    (0, .release false),
    (1, .raw false), (1, .retest)]
 
 /-- A holds; B's `try_lock` passes the flag test and is pre-empted inside the raw try; A's raw unlock
 releases, then panics, and the flag is stored; B's raw try succeeds -/
 def schedKillDuringTry : List (Nat × Act) :=
-  [(0, .start false), (0, .raw false), (0, .retest),
-   (1, .start true),
+  [(0, .start false .x), (0, .raw false), (0, .retest),
+   (1, .start true .x),
    (0, .release true), (0, .store),
    (1, .raw false), (1, .retest)]
 
 /-- the residual window: the waiter gets the raw lock and re-tests *between* a raw unlock that
 releases-then-panics and the store of the flag -/
 def schedResidual : List (Nat × Act) :=
-  [(0, .start false), (0, .raw false), (0, .retest),
-   (1, .start false),
+  [(0, .start false .x), (0, .raw false), (0, .retest),
+   (1, .start false .x),
    (0, .release true),
    (1, .raw false), (1, .retest),
    (0, .store)]
 
+/-- the shared path: two readers hold; a third reader's raw `lock_shared` panics and kills the lock
+while a fourth is between its first test and the raw call -/
+def schedReadersKilled : List (Nat × Act) :=
+  [(0, .start false .s), (0, .raw false), (0, .retest),
+   (1, .start false .s), (1, .raw false), (1, .retest),
+   (3, .start true .s),
+   (2, .start false .s), (2, .raw true), (2, .store),
+   (3, .raw false), (3, .retest)]
+
 def Pc.show : Pc → String
-  | .holding => "guard"
+  | .holding _ => "guard"
   | .refused => "refused"
   | .busy => "busy"
   | .idle => "idle"
   | .recover => "recover"
   | .unwound => "unwound"
-  | .tested _ => "tested"
-  | .locked _ => "locked"
+  | .tested _ _ => "tested"
+  | .locked _ _ => "locked"
 
 /-- what the model says the scenarios of `bin/extras` end in -/
 def scenarioLines (retest : Bool) : List String :=
   let a := run retest (init 3) schedKillWhileWaiting
   let b := run retest (init 2) schedKillDuringTry
   [ s!"kill_while_waiting;waiter_got={(a.pc 1).show}",
-    s!"kill_during_try;in_flight_try_got_guard={decide (b.pc 1 = .holding)}" ]
+    s!"kill_during_try;in_flight_try_got_guard={(b.pc 1).isHolding}" ]
 
 end HLV.Kill
